@@ -67,7 +67,7 @@ def build():
 
 def base_env(scratch, path_prefix=None, tmpdir=None):
     env = {
-        "ASAN_OPTIONS": "detect_leaks=1:allocator_may_return_null=1:abort_on_error=0:handle_abort=1",
+        "ASAN_OPTIONS": "detect_leaks=1:leak_check_at_exit=0:allocator_may_return_null=1:abort_on_error=0",
         "UBSAN_OPTIONS": "print_stacktrace=1",
         "TMPDIR": tmpdir if tmpdir is not None else os.path.join(scratch, "tmp"),
         "C04_SCRATCH": scratch,
@@ -80,6 +80,7 @@ def base_env(scratch, path_prefix=None, tmpdir=None):
 def parse_output(text):
     """-> list of cases {kind, fields, viols:[(sig,text)], leaks:[site], traces:[line]}, and loose lines"""
     cases, pend_v, pend_l, traces, notes = [], [], [], [], []
+    fault = None
     for line in text.splitlines():
         if line.startswith("viol "):
             f = line.split(" ", 2)
@@ -89,12 +90,17 @@ def parse_output(text):
             if m:
                 fl, fn, _ = (m.group(2).split(":") + ["", ""])[:3]
                 pend_l.append((m.group(1), "leak:%s:%s" % (fl, fn), line))
+        elif line.startswith("fault "):
+            m = re.match(r"fault site=(\S+) loader=(\S+)", line)
+            if m:
+                fault = (m.group(1), m.group(2))
         elif line.startswith("trace "):
             traces.append(line)
         elif line.startswith("base ") or line.startswith("k "):
             f = dict(x.split("=", 1) for x in line.split(" ")[1:] if "=" in x)
-            cases.append({"kind": line.split(" ", 1)[0], "f": f, "viols": pend_v, "leaks": pend_l, "line": line})
-            pend_v, pend_l = [], []
+            cases.append({"kind": line.split(" ", 1)[0], "f": f, "viols": pend_v, "leaks": pend_l, "line": line,
+                          "fault": fault})
+            pend_v, pend_l, fault = [], [], None
         elif line.startswith(("own ", "smix ", "reads ", "case ", "skip ", "begin ", "end")):
             notes.append(line)
     return cases, traces, notes, pend_v, pend_l
@@ -113,6 +119,16 @@ def lsan_sites(stderr):
             out.append("leak:%s:%s" % (os.path.basename(path), fn))
             break
     return sorted(set(out))
+
+
+def leak_signature(alloc_sig, fault):
+    """A block leaked by a format loader / depacker is attributed to that file and to the function whose
+    allocation failed (`leak:<loader file>:<function of the failed call>`); everything else keeps the
+    allocation site of the leaked block (`leak:<file>:<function>`)."""
+    if fault and fault[1] != "-":
+        fn = (fault[0].split(":") + ["?", "?"])[1]
+        return "leak:%s:%s" % (fault[1], fn)
+    return alloc_sig
 
 
 class Runner:
@@ -193,7 +209,7 @@ def fold(R, res):
                 rep_args[job["kpos"]] = f["k"]
                 rep_args[job["kpos"] + 1] = f["k"]
             rp = {"argv": rep_args, "env": job["env"], "files": job.get("files", {}), "case": c["line"]}
-            sigs = [(s, t) for s, t in c["viols"]] + [(s, l) for _, s, l in c["leaks"]]
+            sigs = [(s, t) for s, t in c["viols"]] + [(leak_signature(s, c.get("fault")), l) for _, s, l in c["leaks"]]
             for sig, text in sigs:
                 ck.violation(sig, rp, "%s: %s [%s k=%s]" % (sig, text[:200], what, f.get("k")))
     for ab in res["aborts"]:
